@@ -308,8 +308,17 @@ def call(obj, kw):
         out = obj.kin_scaling(None if kw is None else {k: v for k, v in kw})
     except Exception as e:  # noqa
         return {"e": err_enum(e), "msg": str(e)[:120]}
-    arr = np.asarray(out, dtype=float)
-    return {"v": [float(x) for x in arr.ravel()], "shape": list(arr.shape)}
+    arr = np.array(out, dtype=float)
+    res = {"v": [float(x) for x in arr.ravel()], "shape": list(arr.shape)}
+    # what callers do with the scaling they were handed: rescale it in place (J -> sigma_v^2 units, a systematic factor …).
+    # The array is theirs; no later answer of the object may depend on it
+    if isinstance(out, np.ndarray) and out.flags.writeable and out.size:
+        try:
+            out *= 0.9
+            out += 0.25
+        except Exception:  # noqa
+            pass
+    return res
 
 
 def ref_cell(axes, x):
